@@ -1,16 +1,26 @@
 #!/bin/bash
-# usage: tools/allseeds.sh  — applies every kept seeded change to /repo in turn, runs the checks named in its
-# meta.json (caught_by) and reports whether each still reports a violation. /repo is restored after each.
+# usage: tools/allseeds.sh  — applies every kept seeded change in turn in a private scratch worktree of /repo HEAD,
+# runs the checks named in its meta.json (caught_by) against that tree (FOSITE_REPO) and reports whether each still
+# reports a violation. /repo itself is not touched, so this can run while other checks read /repo.
 cd /verif
+W=/tmp/wt/AS_$$
+git -C /repo worktree add -q --detach $W HEAD || exit 2
+trap 'git -C /repo worktree remove --force $W; rm -rf /tmp/allseeds.$$' EXIT
+rc=0
 for d in seeded/*/; do
   n=$(basename $d)
   ids=$(python3 -c "
-import json,re,sys
+import json,re
 m=json.load(open('$d/meta.json'))
-ids=sorted({re.match(r'(C\d+)',x.strip()).group(1) for x in m['caught_by'] if re.match(r'(C\d+)',x.strip())})
-print(' '.join(ids))")
-  out=$(tools/seedcheck.sh /verif/${d}patch.diff $ids 2>&1)
-  caught=$(echo "$out" | grep -c "^== ")
-  rules=$(echo "$out" | grep -o "rule=[A-Z0-9.]* [a-z=-]*.*detail=[^ ]*" | sed 's/role=[^ ]* function=[^ ]* //' | sort -u | head -4 | tr '\n' ';')
-  if [ "$caught" -ge 1 ]; then echo "CAUGHT $n by $ids: $rules"; else echo "MISSED $n ($ids): $out"; fi
+print(' '.join(sorted({re.match(r'(C\d+)',x.strip()).group(1) for x in m['caught_by'] if re.match(r'(C\d+)',x.strip())})))")
+  git -C $W checkout -q -- . && git -C $W clean -fdq
+  if ! git -C $W apply /verif/${d}patch.diff; then echo "NOAPPLY $n"; rc=1; continue; fi
+  rules=""
+  for id in $ids; do
+    V=/tmp/allseeds.$$/$id; mkdir -p $V; cp /verif/known_findings.json $V/
+    out=$(FOSITE_REPO=$W VERIF_DIR=$V /verif/bin/fositelint check $id quick 2>&1)
+    if [ $? -eq 1 ]; then rules="$rules $(echo "$out" | grep -o 'rule=[A-Z0-9.]* .*detail=[^ ]*' | sed 's/role=[^ ]* function=[^ ]* //' | sort -u | head -3 | tr '\n' ';')"; fi
+  done
+  if [ -n "$rules" ]; then echo "CAUGHT $n by $ids:$rules"; else echo "MISSED $n ($ids)"; rc=1; fi
 done
+exit $rc
